@@ -259,7 +259,21 @@ func c10(args []string) {
 		if preserve {
 			opts = append(opts, encoder.ValidatorWithPreserveInvalidValues())
 		}
+		switch i % 3 { // the factory option: the standard factory given explicitly, or a fresh factory with the same contents, changes nothing
+		case 1:
+			opts = append(opts, encoder.ValidatorWithFactory(factory.StandardFactory()))
+		case 2:
+			opts = append(opts, encoder.ValidatorWithFactory(factory.New()))
+		}
 		v := encoder.NewMessageValidator(opts...)
+		if i >= 0 && i%4 == 3 { // a used validator: declarations from an earlier sequence, then Reset -- as fresh
+			junk := r.devScenario()
+			for k := range junk {
+				_ = v.Validate(&junk[k])
+			}
+			v.Reset()
+			stat("validator_reused_after_reset", 1)
+		}
 		work := cloneMessages(msgs)
 		var results []string
 		for k := range work {
